@@ -4,6 +4,7 @@ use crate::builtin::sequence::{XSequence, XSequenceType};
 
 use crate::native_types::{NativeType, XNativeValue};
 use crate::runtime_scope::RuntimeScope;
+use crate::runtime_violation::RuntimeViolation;
 
 use crate::xtype::{XFuncSpec, X_BOOL, X_INT, X_STRING};
 use crate::xvalue::{
@@ -198,18 +199,38 @@ impl<W: 'static, R: 'static, T: 'static> XGenerator<W, R, T> {
                 })
             }),
             Self::Slice(gen, start, end) => either_g({
-                let inner: BIter<_, _, _> = Box::new(to_native!(gen, Self)._iter(ns, rt));
+                let mut permits = rt.limits.search_iter();
+                let mut inner: BIter<_, _, _> = Box::new(to_native!(gen, Self)._iter(ns, rt));
+                let mut to_skip = *start;
+                // discarding elements is a native loop: each discarded element takes a permit,
+                // and a violation among the discarded elements is not discarded
+                let skipped = iter::from_fn(move || {
+                    while to_skip > 0 {
+                        if !matches!(permits.next(), Some(Ok(()))) {
+                            return Some(Err(RuntimeViolation::MaximumSearch));
+                        }
+                        to_skip -= 1;
+                        if let Err(violation) = inner.next()? {
+                            return Some(Err(violation));
+                        }
+                    }
+                    inner.next()
+                });
                 if let Some(end) = end {
                     // `end` is an absolute index into `gen` (see `slice`), not a length
-                    Either::Left(inner.skip(*start).take(end.saturating_sub(*start)))
+                    Either::Left(skipped.take(end.saturating_sub(*start)))
                 } else {
-                    Either::Right(inner.skip(*start))
+                    Either::Right(skipped)
                 }
             }),
             Self::Filter(gen, func) => either_h({
                 let inner: BIter<_, _, _> = Box::new(to_native!(gen, Self)._iter(ns, rt.clone()));
                 let f = to_primitive!(func, Function);
-                inner.filter_map(move |i| {
+                // rejected elements are a native search: each inspected element takes a permit
+                inner.zip(rt.limits.search_iter()).filter_map(move |(i, s)| {
+                    if let Err(violation) = s {
+                        return Some(Err(violation));
+                    }
                     let Ok(value) = i else { return Some(i); };
                     let guard =
                         match ns.eval_func_with_values(f, vec![value.clone()], rt.clone(), false) {
@@ -258,9 +279,14 @@ impl<W: 'static, R: 'static, T: 'static> XGenerator<W, R, T> {
                 let inner: BIter<_, _, _> = Box::new(to_native!(gen, Self)._iter(ns, rt.clone()));
                 let f = to_primitive!(func, Function);
                 let mut found_first = false;
+                let mut permits = rt.limits.search_iter();
                 inner.filter_map(move |i| {
                     if found_first {
                         return Some(i);
+                    }
+                    // skipped elements are a native search: each inspected element takes a permit
+                    if !matches!(permits.next(), Some(Ok(()))) {
+                        return Some(Err(RuntimeViolation::MaximumSearch));
                     }
                     let Ok(value) = i else { return Some(i); };
                     let guard =
